@@ -538,14 +538,26 @@ def c19_one_to_one(world, rec, acc, ctx):
                         k['id'], k['src'], k['dst']), wit)
             continue
         parent = match[0][0]
-        want = 'INTEGRATION [PR#%s > %s] %s' % (parent['id'], k['dst'],
-                                                parent['title'])
+        # "titled after it": the statement fixes no format; the title must
+        # name the parent (its number) and carry the parent's title
         acc.count('c19_child_titles_checked')
-        if k['title'] != want and b.pr(k['id']) is None:
+        ids_in_title = set()
+        num = ''
+        for ch in k['title'] + ' ':
+            if ch.isdigit():
+                num += ch
+            else:
+                if num:
+                    ids_in_title.add(int(num))
+                num = ''
+        if b.pr(k['id']) is None and (
+                parent['id'] not in ids_in_title or
+                parent['title'] not in k['title']):
             wit = wit or witness(world, rec)
             acc.violation('integration-pull-request-wrong-title',
-                          'PR #%d title %r, expected %r' % (
-                              k['id'], k['title'], want), wit)
+                          'PR #%d title %r does not name its parent #%d %r'
+                          % (k['id'], k['title'], parent['id'],
+                             parent['title']), wit)
     for n in wrefs:
         if n not in exp and n not in b.refs:
             wit = wit or witness(world, rec)
